@@ -177,10 +177,21 @@ class ConcurrentExecutorFutureResults(ConcurrentExecutorListResults):
         with self._condition:
             if self._current == self._exec_count:
                 if self._exception and self._fail_fast:
-                    self.future.set_exception(self._exception)
+                    self._complete_future(exception=self._exception)
                 else:
                     sorted_results = [r[1] for r in sorted(self._results_queue)]
-                    self.future.set_result(sorted_results)
+                    self._complete_future(result=sorted_results)
+
+    def _complete_future(self, result=None, exception=None):
+        # The future is completed by whoever gets here first: the last _put_result (possibly several threads,
+        # or nested calls when executions complete synchronously) or execute_concurrent_async itself.
+        with self._condition:
+            if self.future.done():
+                return
+            if exception is not None:
+                self.future.set_exception(exception)
+            else:
+                self.future.set_result(result)
 
 
 def execute_concurrent_async(
@@ -204,8 +215,11 @@ def execute_concurrent_async(
 
     # Execute concurrently
     try:
-        executor.execute(concurrency=concurrency, fail_fast=raise_on_first_error)
+        results = executor.execute(concurrency=concurrency, fail_fast=raise_on_first_error)
     except Exception as e:
-        future.set_exception(e)
+        executor._complete_future(exception=e)
+    else:
+        # already completed by _put_result unless there was nothing to execute
+        executor._complete_future(result=results)
 
     return future
